@@ -11,7 +11,10 @@ T[post]='s/^\( *\)++m_used_size;/\1m_used_size++;/'
 T[ne0]='s/if (m_used_size > 0)/if (m_used_size != 0)/'
 T[ren]='s/\bkeyed_position\b/kpos/g'
 T[flip]='s/if (m_used_size >= m_elements.size())/if (m_elements.size() <= m_used_size)/'
-for t in inc dec post ne0 ren flip; do
+T[cnt]='s/^\( *\)++\(inserted\|deleted_elements\|deleted\);/\1\2 += 1;/'
+T[neq]='s/if (keyed_position != m_keyed_elements.end())/if (m_keyed_elements.end() != keyed_position)/'
+T[pk]='s/if (peek == peek::no)/if (peek != peek::yes)/'
+for t in ${BATTERY_TRANSFORMS:-inc dec post ne0 ren flip cnt neq pk}; do
   r=/tmp/bat_$$_$t; rm -rf $r; mkdir -p $r/repo $r/build; cp -r $REPO_SRC/inc $REPO_SRC/src $r/repo/
   changed=""
   for h in $r/repo/inc/cappuccino/*_cache.hpp $r/repo/inc/cappuccino/ut_map.hpp $r/repo/inc/cappuccino/ut_set.hpp; do
